@@ -920,7 +920,7 @@ def _remove_stale_scratch():
 def items(tier, seed):
     b = buffer_items(tier, seed)
     first = [i for i in b if i["kind"].startswith("ReplayBuffer") and not i["real_jnp"]]  # two sub-second items that report a graph
-    return first + module_items(tier, seed) + [i for i in b if i not in first]
+    return first + module_items(tier, seed) + [dict(name="mod-same-checkpoint-directory", part="samedir", seed=seed)] + [i for i in b if i not in first]
 
 
 def worker_init():
@@ -941,7 +941,29 @@ def worker_init():
         pass
 
 
+class _SameDir:
+    """C20's same-directory scenario (two checkpointer instances, one directory) decides C19's clause too: what a
+    checkpointing logger lists must reload to the parameters it recorded; its findings are re-labelled."""
+
+    def __init__(self, col):
+        self._col = col
+
+    def violation(self, signature, detail=None, item=None):
+        kind = signature.split("|")[2]
+        self._col.violation(SIG.format("OrbaxCheckpointer.record_epoch+StandardCheckpointer.restore", "listed-checkpoint-" + kind), detail)
+
+    def sample(self, obj):
+        pass
+
+    def __getattr__(self, name):
+        return getattr(self._col, name)
+
+
 def work(item, col):
+    if item["part"] == "samedir":
+        from checks import c20
+
+        return c20.work(dict(item, part="samedir"), _SameDir(col))
     if item["part"] == "mod":
         return module_item(item, col)
     return buffer_item(item, col)
